@@ -46,7 +46,7 @@ def bitmap_consistent(self):
     _INV['n'] += 1
     idx = self.freq_index
     ok = len(self.bitmap) == len(idx) and all(b - a == 1 for a, b in zip(idx[:-1], idx[1:])) \
-        and idx[0] == self.n_min and idx[-1] == self.n_max
+        and len(idx) > 0 and idx[0] == self.n_min and idx[-1] == self.n_max
     if not ok and _INV['fail'] is None:
         dup = sorted({x for x in idx if idx.count(x) > 1})[:3]
         _INV['fail'] = {'len_bitmap': len(self.bitmap), 'len_index': len(idx), 'n_min': self.n_min, 'n_max': self.n_max,
@@ -78,7 +78,7 @@ def install():
 
 
 def plan(tier, seed):
-    n = 80 if tier == 'quick' else 10000
+    n = 720 if tier == 'quick' else 10000
     kinds = ['multiband_shipped', 'multiband_gen', 'mixed', 'narrow', 'align', 'align', 'multiband_gen', 'narrow',
              'p2p', 'chassis', 'offgrid', 'align']
     return [{'idx': i, 'kind': kinds[i % len(kinds)]} for i in range(n)]
@@ -354,7 +354,7 @@ def run_align(case, ctx):
                 f_min, f_max = first
             elif shape == 'nested' and first is not None:
                 f_min = first[0] + rng.randint(0, 10) * 12.5e9
-                f_max = first[1] - rng.randint(0, 10) * 12.5e9
+                f_max = max(first[1] - rng.randint(0, 10) * 12.5e9, f_min + 4 * 12.5e9)
             first = first or (f_min, f_max)
             o = OMS(oms_id=i, el_id_list=[], el_list=[])
             n_lo, n_hi = frequency_to_n(f_min), frequency_to_n(f_max)
